@@ -224,7 +224,11 @@ theorem remove_rel (s : St) (sp : Spec) (h : Rel s sp) (k : String) :
 theorem step_rel (s : St) (sp : Spec) (h : Rel s sp) (op : Op) :
     (stepM goodEv s op).2.2 = (stepS sp op).2 ∧ Rel (stepM goodEv s op).1 (stepS sp op).1 := by
   cases op with
-  | set k v => exact save_rel s sp h k v
+  | set k v =>
+    have := save_rel s sp h k v
+    simp only [stepM, goodEv, Bool.not_true, Bool.and_false, Bool.false_eq_true, if_false]
+    exact this
+  | drain b => exact ⟨rfl, h.vals, h.clean, h.subs⟩
   | inc k n =>
     have hv := h.vals k
     cases hr : s.recs k with
@@ -273,17 +277,25 @@ example : deliveredM goodEv 1 St.init
 /-- Current code (flags never cleared): the second, identical save is reported again. -/
 def witnessNoop : List Op := [.sub 1, .set "a" (.str "x"), .set "a" (.str "x")]
 
-theorem noop_save_emits (oldLive : Bool) :
-    deliveredM { resetsChangedFlags := false, oldIsLive := oldLive } 1 St.init witnessNoop
+theorem noop_save_emits (oldLive dr : Bool) :
+    deliveredM { resetsChangedFlags := false, oldIsLive := oldLive, sendsDuringDrain := dr } 1 St.init witnessNoop
       ≠ deliveredS 1 Spec.init witnessNoop := by
-  cases oldLive <;> decide
+  cases oldLive <;> cases dr <;> decide
 
 /-- `OldTreasure` is the live (already updated) object: the previous value never reaches the client. -/
 def witnessOld : List Op := [.sub 1, .set "a" (.str "x"), .set "a" (.str "y")]
 
-theorem old_value_lost :
-    deliveredM { resetsChangedFlags := true, oldIsLive := true } 1 St.init witnessOld
-      ≠ deliveredS 1 Spec.init witnessOld := by decide
+theorem old_value_lost (dr : Bool) :
+    deliveredM { resetsChangedFlags := true, oldIsLive := true, sendsDuringDrain := dr } 1 St.init witnessOld
+      ≠ deliveredS 1 Spec.init witnessOld := by cases dr <;> decide
+
+/-- Destroy switches event sending off before it drains the in-flight requests: a record inserted during the drain
+    is committed (and survives, the swamp is closed instead of destroyed) but its NEW event is never sent. -/
+def witnessDrain : List Op := [.sub 1, .set "a" (.str "x"), .drain true, .set "b" (.str "y"), .drain false]
+
+theorem event_dropped_during_drain :
+    deliveredM { resetsChangedFlags := true, oldIsLive := false, sendsDuringDrain := false } 1 St.init witnessDrain
+      ≠ deliveredS 1 Spec.init witnessDrain := by decide
 
 /-! ### per-key order -/
 
@@ -550,10 +562,13 @@ structure Facts where
   eventTimeFromClock : Tri
   /-- hydra.SummonSwamp: `hasEventSubscriber` is consulted after `h.swamps.Store` -/
   checksSubscribersAfterStore : Tri
+  /-- swamp.destroy calls StopSendingEvents after the vigil drain and the non-empty re-check -/
+  stopsSendingAfterDrain : Tri
   deriving Repr
 
 def cfgOf (f : Facts) : Cfg :=
-  { ev := { resetsChangedFlags := f.resetsChangedFlags.isYes, oldIsLive := !f.oldIsLive.isNo },
+  { ev := { resetsChangedFlags := f.resetsChangedFlags.isYes, oldIsLive := !f.oldIsLive.isNo,
+            sendsDuringDrain := !f.stopsSendingAfterDrain.isNo },
     timeConv := f.timeConv,
     sendUnderMutex := f.sendUnderMutex.isYes,
     emittedUnderGuard := f.emittedUnderGuard.isYes && f.fanoutSynchronous.isYes,
@@ -567,7 +582,8 @@ def findings (c : Cfg) : List String :=
   (if c.ev.oldIsLive then ["C19-old-treasure-is-live-object"] else []) ++
   (if c.emittedUnderGuard then [] else ["C19-events-out-of-order"]) ++
   (if c.stampFromClock then [] else ["C19-event-time-from-record-metadata"]) ++
-  (if c.checksSubscribersAfterStore then [] else ["C19-subscribe-during-load-misses-events"])
+  (if c.checksSubscribersAfterStore then [] else ["C19-subscribe-during-load-misses-events"]) ++
+  (if c.ev.sendsDuringDrain then [] else ["C19-event-dropped-during-destroy-drain"])
 
 def classify (f : Facts) : Verdict :=
   if f.timeConv = .unknown then .undetermined "events.timeConv" else
@@ -578,6 +594,7 @@ def classify (f : Facts) : Verdict :=
   if f.oldIsLive = .unknown then .undetermined "events.oldIsLive" else
   if f.eventTimeFromClock = .unknown then .undetermined "events.eventTimeFromClock" else
   if f.checksSubscribersAfterStore = .unknown then .undetermined "summon.checksSubscribersAfterStore" else
+  if f.stopsSendingAfterDrain = .unknown then .undetermined "destroy.stopsSendingAfterDrain" else
   match findings (cfgOf f) with
   | [] => .holds
   | fs => .violated fs
@@ -604,7 +621,8 @@ theorem holds_partial (c : Cfg) : HoldsPartial c := by
 
 theorem holds_of_no_findings (c : Cfg) (hex : c.timeConv ≠ .unknown) (h : findings c = []) : Holds c := by
   simp only [findings, List.append_eq_nil_iff] at h
-  obtain ⟨⟨⟨⟨⟨⟨h1, h2⟩, h3⟩, h4⟩, h5⟩, h6⟩, h7⟩ := h
+  obtain ⟨⟨⟨⟨⟨⟨⟨h1, h2⟩, h3⟩, h4⟩, h5⟩, h6⟩, h7⟩, h8⟩ := h
+  have hdd : c.ev.sendsDuringDrain = true := by cases hh : c.ev.sendsDuringDrain <;> simp [hh] at h8 ⊢
   have hsc : c.stampFromClock = true := by cases hh : c.stampFromClock <;> simp [hh] at h6 ⊢
   have hcs : c.checksSubscribersAfterStore = true := by cases hh : c.checksSubscribersAfterStore <;> simp [hh] at h7 ⊢
   have p := holds_partial c
@@ -618,7 +636,7 @@ theorem holds_of_no_findings (c : Cfg) (hex : c.timeConv ≠ .unknown) (h : find
   have hr : c.ev.resetsChangedFlags = true := by cases hh : c.ev.resetsChangedFlags <;> simp [hh] at h3 ⊢
   have ho : c.ev.oldIsLive = false := by cases hh : c.ev.oldIsLive <;> simp [hh] at h4 ⊢
   have hg : c.emittedUnderGuard = true := by cases hh : c.emittedUnderGuard <;> simp [hh] at h5 ⊢
-  have hev : c.ev = goodEv := by cases hc : c.ev; simp [hc] at hr ho; simp [goodEv, hr, ho]
+  have hev : c.ev = goodEv := by cases hc : c.ev; simp [hc] at hr ho hdd; simp [goodEv, hr, ho, hdd]
   exact ⟨p.timeExact ht hsc, p.exactlyOnce hev, p.perKeyOrder hg, p.serialized hm, p.subscribedWhileLoading hcs⟩
 
 theorem refutes_of_findings (c : Cfg) (h : findings c ≠ []) : ¬ Holds c := by
@@ -635,18 +653,27 @@ theorem refutes_of_findings (c : Cfg) (h : findings c ≠ []) : ¬ Holds c := by
     | false =>
       exfalso
       have := hh.exactlyOnce 1 witnessNoop
-      have hc : c.ev = { resetsChangedFlags := false, oldIsLive := c.ev.oldIsLive } := by
+      have hc : c.ev = { resetsChangedFlags := false, oldIsLive := c.ev.oldIsLive, sendsDuringDrain := c.ev.sendsDuringDrain } := by
         cases hc : c.ev; simp [hc] at hr; simp [hr]
-      rw [hc] at this; exact noop_save_emits _ this
+      rw [hc] at this; exact noop_save_emits _ _ this
   have h4 : c.ev.oldIsLive = false := by
     cases ho : c.ev.oldIsLive with
     | false => rfl
     | true =>
       exfalso
       have := hh.exactlyOnce 1 witnessOld
-      have hc : c.ev = { resetsChangedFlags := true, oldIsLive := true } := by
+      have hc : c.ev = { resetsChangedFlags := true, oldIsLive := true, sendsDuringDrain := c.ev.sendsDuringDrain } := by
         cases hc : c.ev; simp [hc] at h3 ho; simp [h3, ho]
-      rw [hc] at this; exact old_value_lost this
+      rw [hc] at this; exact old_value_lost _ this
+  have h8 : c.ev.sendsDuringDrain = true := by
+    cases hd : c.ev.sendsDuringDrain with
+    | true => rfl
+    | false =>
+      exfalso
+      have := hh.exactlyOnce 1 witnessDrain
+      have hc : c.ev = { resetsChangedFlags := true, oldIsLive := false, sendsDuringDrain := false } := by
+        cases hc : c.ev; simp [hc] at h3 h4 hd; simp [h3, h4, hd]
+      rw [hc] at this; exact event_dropped_during_drain this
   have h5 : c.emittedUnderGuard = true := by
     cases hg : c.emittedUnderGuard with
     | true => rfl
@@ -689,7 +716,7 @@ theorem refutes_of_findings (c : Cfg) (h : findings c ≠ []) : ¬ Holds c := by
           rw [hr] at this; simp at this; exact this
         have := hh.subscribedWhileLoading [true, false, false, true] s (by rw [hs]; exact hr) hpc.1 hpc.2
         rw [hw] at this; exact absurd this (by simp)
-  simp [findings, h1, h2, h3, h4, h5, h6, h7]
+  simp [findings, h1, h2, h3, h4, h5, h6, h7, h8]
 
 theorem classify_sound (f : Facts) : (classify f).Sound (Holds (cfgOf f)) (HoldsPartial (cfgOf f)) := by
   unfold classify
@@ -701,7 +728,8 @@ theorem classify_sound (f : Facts) : (classify f).Sound (Holds (cfgOf f)) (Holds
   split; · trivial
   split; · trivial
   split; · trivial
-  rename_i hex _ _ _ _ _ _ _
+  split; · trivial
+  rename_i hex _ _ _ _ _ _ _ _
   split
   · rename_i hf
     exact holds_of_no_findings _ (by simpa [cfgOf] using hex) hf
